@@ -872,7 +872,15 @@ fn load_config_from_string(cfg: &str) -> Result<SharedConfig, Error> {
                 }
                 (Some("dns-search"), s) => {
                     dns_search = parse_array("dns-search", s, parse_string)?
-                        .ok_or_else(|| Error::InvalidConfig("dns-search cannot be null".into()))?
+                        .ok_or_else(|| Error::InvalidConfig("dns-search cannot be null".into()))?;
+                    /* The search list is announced in router advertisements */
+                    if crate::radv::config::dnssl_octets(&dns_search)
+                        > crate::radv::config::MAX_DNSSL_OCTETS
+                    {
+                        return Err(Error::InvalidConfig(
+                            "dns-search does not fit in a router advertisement option".into(),
+                        ));
+                    }
                 }
                 (Some("captive-portal"), s) => {
                     captive_portal = parse_string("captive-portal", s)?;
